@@ -5,6 +5,7 @@ import (
 	"fmt"
 	"math/rand"
 	"strings"
+	"sync/atomic"
 	"testing"
 	"time"
 
@@ -16,16 +17,24 @@ import (
 
 const quicCallBound = 10 * time.Second
 
-// bounded runs f in its own goroutine and reports whether it returned in time.
+// bounded runs f in its own goroutine and reports whether it returned in time.  A call that
+// has not returned counts as stuck only if its goroutine is parked (goroutine-state rule
+// of hostile.go); if it is running/runnable the machine is slow and slowCalls is bumped so
+// that the run is reported as inconclusive instead.
+var quicSlowCalls atomic.Int64
+
 func bounded(f func() error) (err error, returned bool) {
-	ch := make(chan error, 1)
-	go func() { ch <- f() }()
-	select {
-	case e := <-ch:
-		return e, true
-	case <-time.After(quicCallBound):
-		return nil, false
+	o := runBounded(quicCallBound, f)
+	if o.Returned {
+		if o.Panic != "" {
+			panic(o.Panic)
+		}
+		return o.Err, true
 	}
+	if !parkedState(o.State) {
+		quicSlowCalls.Add(1)
+	}
+	return nil, false
 }
 
 type quicSide struct {
@@ -357,6 +366,11 @@ func TestC23(t *testing.T) {
 		}
 	}
 	r.Count("distinct_event_orders", int64(len(orders)))
+	if k := quicSlowCalls.Load(); k > 0 {
+		// "did not return" verdicts of this run may stem from machine load
+		r.Demote("call_did_not_return", fmt.Sprintf("%d QUIC call(s) exceeded %s while their goroutine was running/runnable (machine load)", k, quicCallBound))
+		r.Inconclusive(fmt.Sprintf("%d QUIC call(s) exceeded %s while their goroutine was running/runnable (machine load)", k, quicCallBound))
+	}
 	r.Floor("completed", int64(n/4))
 	r.Floor("completed_with_hrr", 3)
 	r.Floor("distinct_event_orders", 10)
